@@ -18,6 +18,7 @@ static Args ARGS;
 static long long TOTAL_STATES = 0, TOTAL_TRANS = 0;
 static std::vector<std::string> SAMPLES, PER_CLASS;
 static bool ALL_COMPLETE = true;
+static const char* PROFILE = getenv("VERIF_C13_PROFILE");     // development aid: per-transition times appended to <value>.<pid>
 
 enum Kind { K_MUT = 0, K_ASSIGN = 1, K_COPYCTOR = 2, K_SWAP = 3 };
 struct POp { int kind, a, b, m; };
@@ -213,7 +214,7 @@ static void check_transition(const ClassAdapter<T>& A, PoolState<T>& P, const PO
     // identical full representations: same value, same validity (the rebuilt object is made by the plain operations)
     if (A.dump(*P.slot[i]) == A.dump(*sh)) { count(CNT_CHECKS); continue; }
     bool okk = false; try { okk = A.ok(*P.slot[i]); } catch (...) {}
-    bool ok_sh = false; try { ok_sh = A.ok(*sh); } catch (...) {}
+    bool ok_sh = false; if (!okk) { try { ok_sh = A.ok(*sh); } catch (...) {} }     // only needed to excuse an invalid slot
     if (!okk && ok_sh) { if (violcap().admit(A.name + "|ok|" + site + trig)) report_violation(site, "invariant:OK()-of-slot", trig, inj, "slot " + std::to_string(i) + " OK() false", "OK() true"); continue; }
     bool eq = false; try { eq = A.equal(*P.slot[i], *sh); } catch (...) {}
     count(CNT_CHECKS);
@@ -355,7 +356,9 @@ static void run_class(const ClassAdapter<T>& A, int depth, const int init[3]) {
       PoolState<T> P; pinit(A, P, init);
       for (size_t i = 0; i < h.size(); ++i) papply(A, P, h[i]);
       PHist full = h; full.push_back(ops[oi]);
+      double tp0 = PROFILE ? now_s() : 0;
       check_transition(A, P, ops[oi], J().str("class", A.name).raw("history", phist_text(A, init, full)).done());
+      if (PROFILE) { FILE* pf = fopen((std::string(PROFILE) + "." + std::to_string(getpid())).c_str(), "a"); if (pf) { fprintf(pf, "%.0f\t%s\t%s\n", (now_s() - tp0) * 1e6, A.name.c_str(), ops[oi].kind == K_MUT ? A.muts[ops[oi].m].name.c_str() : "copy/assign/swap"); fclose(pf); } }
     }
     count(CNT_STATES);
   };
